@@ -89,15 +89,33 @@ Definition event_match (m i : event) : bool :=
   | MError f, MError g => Bool.eqb f g
   | _, _ => false
   end.
-Definition obs_match (m i : obs) : bool := resp_match (fst m) (fst i) && list_eqb event_match (snd m) (snd i).
+(** traces are compared as multisets for pod and controller requests (no property
+    constrains the relative order of dependency, evaluator and metrics calls there),
+    and in order for namespace requests (the dry-run evaluation order is C12's subject) *)
+Definition mode_key (m : emode) : string := match m with ModeEnforce => "enforce" | ModeAudit => "audit" | ModeWarn => "warn" end.
+Definition event_key (e : event) : string :=
+  match e with
+  | EvNsLookup => "nslookup" | EvDecode => "decode" | EvDecodeOld => "decodeold" | EvList _ => "list"
+  | EvEval x n => "eval " ++ lv_string x ++ " " ++ n
+  | MEval d x mo => "meval " ++ (if d then "deny " else "allow ") ++ lv_string x ++ " " ++ mode_key mo
+  | MExempt => "mexempt"
+  | MError f => if f then "merror fatal" else "merror"
+  end.
+Definition trace_match (ordered : bool) (m i : list event) : bool :=
+  if ordered then list_eqb event_match m i
+  else list_eqb String.eqb (ssort (map event_key m)) (ssort (map event_key i)).
+Definition obs_match_gen (ordered : bool) (m i : obs) : bool :=
+  resp_match (fst m) (fst i) && trace_match ordered (snd m) (snd i).
+Definition obs_match (m i : obs) : bool := obs_match_gen true m i.
 
 Definition no_exemptions (c : config) : config :=
   Config (cf_defaults c) [] [] [] (cf_max_pods c) (cf_timeout c).
 
 Definition mismatch_adm (c : adm_case) : bool :=
-  negb (obs_match (validate (ac_cfg c) (table_ev c) (ac_req c) (ac_world c)) (ac_obs c))
+  let ordered := is_namespaces (ac_req c) in
+  negb (obs_match_gen ordered (validate (ac_cfg c) (table_ev c) (ac_req c) (ac_world c)) (ac_obs c))
   || match ac_noexempt c with
-     | Some o => negb (obs_match (validate (no_exemptions (ac_cfg c)) (table_ev c) (ac_req c) (ac_world c)) o)
+     | Some o => negb (obs_match_gen ordered (validate (no_exemptions (ac_cfg c)) (table_ev c) (ac_req c) (ac_world c)) o)
      | None => false
      end.
 
@@ -122,6 +140,9 @@ Definition pf11cs (c : adm_case) := negb (P11_control_sets (ac_cfg c) (table_ev 
 Definition pf12 (c : adm_case) := negb (P12 (ac_cfg c) (table_ev c) (ac_req c) (ac_world c) (ac_obs c)).
 Definition pf18 (c : adm_case) := negb (P18_adm (ac_cfg c) (ac_req c) (ac_world c) (ac_obs c)).
 
+(** C13 on admission messages: the denial message, the warning and the audit annotation carry the
+    evaluator's detail for their own level:version (the message clauses of P01 and P08) *)
+Definition pf13 (c : adm_case) := pf01 c || pf08 c.
 Definition run_adm (pf : adm_case -> bool) (cs : list adm_case) : list N * list N :=
   (find_idx pf cs, find_idx mismatch_adm cs).
 (** all admission relations at once (development self-check) *)
